@@ -98,7 +98,7 @@ def tsub(x, y):
         return True
     if x[0] in ("U", "S"):
         return y in ((x[0] + "g",), ("BV", x[1]), ("BVg",))
-    if x[0] == "BV":
+    if x[0] in ("BV", "BVs"):
         return y == ("BVg",)
     if x[0] in ("Ug", "Sg"):
         return y == ("BVg",)
